@@ -588,7 +588,9 @@ theorem C03_check_sound_complete (cfg : Cfg)
 
 /-- **`C03_loss_reduce`**: `hard_optimal_completion_distillation_loss` on whole tensors, for
 strictly positive costs, a non-empty batch with at least one hypothesis position, logits matching
-`hyp`, an admissible eos, and an `ignore_index` that is no token of a cut reference. For either
+`hyp`, an admissible eos, an `ignore_index` that is no token of a cut reference, and (`hcls`, added by the
+audit — without it the code raises `IndexError`, see `C03_loss_rejects_class`) every token of a cut
+reference a class index `0 ≤ t < V`. For either
 value of `batch_first`:
 * `reduction="none"` returns the matrix, in the layout of `hyp`, whose entry at (prefix `k`,
   sequence `n`) is `specCell … k n = lossSpec` (minus the average weighted log-probability) over
@@ -604,7 +606,9 @@ theorem C03_loss_reduce (cfg : Cfg) (hex : cfg.excludeLast = true)
     (hl0 : lsm.d0 = hyp.d0) (hl1 : lsm.d1 = hyp.d1)
     (heos : (cfg.includeEos && badEos cfg.eos cfg.padding lsm.d2) = false)
     (hpad : ∀ n, n < batchOf bf ref →
-      cfg.padding ∉ (seqOf bf ref n).take (cutLen cfg.eos cfg.includeEos (seqOf bf ref n))) :
+      cfg.padding ∉ (seqOf bf ref n).take (cutLen cfg.eos cfg.includeEos (seqOf bf ref n)))
+    (hcls : ∀ n, n < batchOf bf ref →
+      ∀ t ∈ (seqOf bf ref n).take (cutLen cfg.eos cfg.includeEos (seqOf bf ref n)), 0 ≤ t ∧ t < (lsm.d2 : Int)) :
     (∃ L, hardOCDLossT cfg bf .none w lsm ref hyp = .ok (.matrix L) ∧ L.d0 = hyp.d0 ∧ L.d1 = hyp.d1 ∧
         ∀ k n, k < seqLen bf hyp → n < batchOf bf ref →
           L.get 0 (if bf then n else k) (if bf then k else n) = specCell cfg bf w lsm ref hyp k n) ∧
@@ -615,6 +619,35 @@ theorem C03_loss_reduce (cfg : Cfg) (hex : cfg.excludeLast = true)
           (specHas cfg bf ref hyp))) :=
   hardOCDLossT_spec cfg hex bf w lsm ref hyp hN hpos hH hl0 hl1 heos
     (fun n k hn hm => hpad n hn (colSelected_mem_cut cfg hi hd hs _ _ k _ hm))
+    (fun n k hn t ht => hcls n hn t (colSelected_mem_cut cfg hi hd hs _ _ k _ ht))
+
+/-- **`C03_loss_rejects_class`** (the guard `hcls` of `C03_loss_reduce` is needed, and the model does not
+paper over it): under the other preconditions, if some place (prefix `k`, sequence `n`) has a target `t`
+(`TargetAt`: a distance-preserving next token of a prefix of the cut hypothesis) that is not `ignore_index`
+and is no class index (`t < 0` or `t ≥ V`), the model raises `IndexError` for every reduction — as
+`cross_entropy` does (`Target … is out of bounds`). Before the audit the model read the log-probability
+at a clamped index there (class 0 for a negative token, 0 for a token `≥ V`) and `C03_loss_reduce` held
+for a loss the code never returns. -/
+theorem C03_loss_rejects_class (cfg : Cfg) (hex : cfg.excludeLast = true)
+    (hi : 0 < cfg.costs.ins) (hd : 0 < cfg.costs.del) (hs : 0 < cfg.costs.sub)
+    (bf : Bool) (red : Reduction) (w : Int → Rat) (lsm : Tens3 Rat) (ref hyp : Tens2 Int)
+    (hN : batchOf bf ref = batchOf bf hyp) (hpos : 0 < batchOf bf ref) (hH : 0 < seqLen bf hyp)
+    (hl0 : lsm.d0 = hyp.d0) (hl1 : lsm.d1 = hyp.d1)
+    (heos : (cfg.includeEos && badEos cfg.eos cfg.padding lsm.d2) = false)
+    (k n : Nat) (hk : k < seqLen bf hyp) (hn : n < batchOf bf ref) (t : Int)
+    (ht : TargetAt cfg bf ref hyp n k t) (htp : t ≠ cfg.padding) (hbad : t < 0 ∨ (lsm.d2 : Int) ≤ t) :
+    hardOCDLossT cfg bf red w lsm ref hyp = .error "IndexError" := by
+  obtain ⟨hv, hT⟩ := ht
+  have hk' : k ≤ nIter cfg.excludeLast (seqOf bf hyp n).length := by
+    rw [seqOf_length, hex]; unfold nIter; simp; omega
+  have hdom : ¬ (cfg.excludeLast = true ∧ cutLen cfg.eos cfg.includeEos (seqOf bf hyp n) = 0) := by
+    rintro ⟨_, h0⟩
+    unfold ValidPrefix at hv
+    rw [hex, h0] at hv
+    simp at hv
+  obtain ⟨_, hval, _⟩ := C03_model_targets cfg hi hd hs (seqOf bf ref n) (seqOf bf hyp n) k hk' hdom
+  exact hardOCDLossT_rejects_target cfg hex bf red w lsm ref hyp hN hpos hH hl0 hl1 heos k n hk hn t
+    ((hval hv t).mpr hT) htp hbad
 
 /-- The hypotheses of `C03_loss_reduce` hold on the literal of the next example. -/
 example :
@@ -622,7 +655,10 @@ example :
     ∧ 0 < seqLen true (⟨2, 2, [2, 1, 1, 0]⟩ : Tens2 Int)
     ∧ (false && badEos (some 0) (-2) 3) = false
     ∧ (∀ n, n < 2 → (-2 : Int) ∉
-        (seqOf true ⟨2, 2, [1, 2, 2, 0]⟩ n).take (cutLen (some 0) false (seqOf true ⟨2, 2, [1, 2, 2, 0]⟩ n))) := by
+        (seqOf true ⟨2, 2, [1, 2, 2, 0]⟩ n).take (cutLen (some 0) false (seqOf true ⟨2, 2, [1, 2, 2, 0]⟩ n)))
+    ∧ (∀ n, n < 2 → ∀ t ∈
+        (seqOf true ⟨2, 2, [1, 2, 2, 0]⟩ n).take (cutLen (some 0) false (seqOf true ⟨2, 2, [1, 2, 2, 0]⟩ n)),
+          0 ≤ t ∧ t < ((3 : Nat) : Int)) := by
   decide
 
 /-- seed-like check of the statement on a literal: two sequences of different lengths, eos 0 not
@@ -637,5 +673,100 @@ example :
           ⟨2, 2, 3, [-1, -2, -3, -1, -1, -4, -2, -2, -2, -5, -1, -1]⟩ ⟨2, 2, [1, 2, 2, 0]⟩ ⟨2, 2, [2, 1, 1, 0]⟩)
         (specHas ⟨some 0, false, true, ⟨1, 1, 1⟩, -2⟩ true ⟨2, 2, [1, 2, 2, 0]⟩ ⟨2, 2, [2, 1, 1, 0]⟩)) := by
   decide +kernel
+
+/-! ## Audit: every theorem above applied to ONE concrete non-trivial instance (all its hypotheses together)
+
+Column instance (the docstring-like one): padded reference `1 2 2 3 eos 2 2` (repeated token, garbage after
+the eos that repeats a valid token), padded hypothesis `2 1 2 eos 5`, eos `0` counted, costs (1/4, 4, 3/2)
+(no shortcut; all positive). -/
+
+def audCfg : Cfg := ⟨some 0, true, false, ⟨1/4, 4, 3/2⟩, -100⟩
+
+example := C03_row_lower ⟨1/4, 4, 3/2⟩ (by norm_num) (by norm_num) (by norm_num) [1, 2, 2, 3] [2] 1 2 (by decide)
+example := C03_best_completion ⟨1/4, 4, 3/2⟩ (by norm_num) (by norm_num) (by norm_num) [1, 2, 2, 3] [2, 1]
+-- C03_best_completion_witness: position j = 1 of the reference `1 2 3` is minimal for the prefix `1`
+example : lev unitCosts ([(1 : Int), 2, 3] ++ []) ([1] ++ [(1 : Int), 2, 3].drop 1) = best unitCosts [(1 : Int), 2, 3] [1] := by
+  have h := C03_best_completion_witness unitCosts (by norm_num [unitCosts]) (by norm_num [unitCosts])
+    (by norm_num [unitCosts]) [(1 : Int), 2, 3] [1] 1
+    (by simp [best, prefixDists, listMin, lev, subCost, unitCosts, List.range_succ])
+  simpa using h
+example := C03_target_decl ⟨1/4, 4, 3/2⟩ (by norm_num) (by norm_num) (by norm_num) [1, 2, 2, 3] [2] 2
+example := C03_targets ⟨1/4, 4, 3/2⟩ (by norm_num) (by norm_num) (by norm_num) [1, 2, 2, 3] [2] 2
+-- C03_mask: all five hypotheses (row 2 is live, position 1 is the marked one)
+example := C03_mask ⟨1/4, 4, 3/2⟩ false [1, 2, 2, 3, 0, 2, 2] [2, 1, 2, 0, 5] 5 4 (by norm_num) (by decide) (by decide)
+  2 (by decide) 1 (by decide)
+example : colMasks ⟨1/4, 4, 3/2⟩ false [1, 2, 2, 3, 0, 2, 2] [2, 1, 2, 0, 5] 5 4
+    = [[true, false, false, false, false, false, false], [true, false, false, false, false, false, false],
+       [false, true, false, false, false, false, false], [false, false, true, false, false, false, false],
+       [false, false, true, false, false, false, false], [false, false, false, false, false, false, false]] := by
+  decide +kernel
+-- C03_select_any_sort: both hypotheses — a token-sorted rearrangement of the (token, flag) pairs of the row
+-- `2 1 2` with position 0 marked (the duplicate at position 2 is marked by propagation)
+example : select (dropDup [((1 : Int), false), (2, true), (2, true)]) = selectTargets [2, 1, 2] [true, false, false] :=
+  C03_select_any_sort [2, 1, 2] [true, false, false] [(1, false), (2, true), (2, true)] (by decide) (by simp [SortedFst])
+-- C03_model_targets: all hypotheses; a valid prefix (k = 1) and a row past the end (k = 5)
+example := C03_model_targets audCfg (by norm_num [audCfg]) (by norm_num [audCfg]) (by norm_num [audCfg])
+  [1, 2, 2, 3, 0, 2, 2] [2, 1, 2, 0, 5] 1 (by decide) (by decide)
+example : ValidPrefix audCfg.excludeLast (cutLen audCfg.eos audCfg.includeEos [2, 1, 2, 0, 5]) 1
+    ∧ ¬ ValidPrefix audCfg.excludeLast (cutLen audCfg.eos audCfg.includeEos [2, 1, 2, 0, 5]) 5 := by decide
+example : colSelected audCfg [1, 2, 2, 3, 0, 2, 2] [2, 1, 2, 0, 5] = [[1], [1], [2], [2], [2], []] := by decide +kernel
+-- with exclude_last (the last valid prefix is dropped)
+example := C03_model_targets { audCfg with excludeLast := true } (by norm_num [audCfg]) (by norm_num [audCfg])
+  (by norm_num [audCfg]) [1, 2, 2, 3, 0, 2, 2] [2, 1, 2, 0, 5] 3 (by decide) (by decide)
+-- C03_batch_row: two columns
+example := C03_batch_row audCfg [[1, 2, 2, 3, 0, 2, 2], [3, 0, 1, 1, 1, 1, 1]] [[2, 1, 2, 0, 5], [3, 3, 0, 0, 0]] 1 1
+  (by decide) (by decide)
+-- C03_loss_cell / C03_loss_counted / C03_loss_prefix
+example := C03_loss_cell (-2) (fun _ => 1) (fun s => -(s : Rat)) [1, 3] 2 (by decide)
+example := C03_loss_counted (-2) [1, 3] 2 (by decide)
+example := C03_loss_prefix { audCfg with excludeLast := true, padding := -2 } rfl (by norm_num [audCfg])
+  (by norm_num [audCfg]) (by norm_num [audCfg]) [1, 2, 2, 3, 0, 2, 2] [2, 1, 2, 0, 5] 1 (by decide) (by decide)
+  (fun _ => 1) (fun s => -(s : Rat)) 3 (by decide)
+-- C03_row_freedom / C03_row_any_order_width / C03_rowagree
+theorem aud_rowprop : RowProp (-100) (fun t => t = 1 ∨ t = 2) ([1, 2] ++ List.replicate 1 (-100)) :=
+  ⟨[1, 2], 1, rfl, by decide, by decide, fun t => by simp⟩
+example := C03_row_freedom (-100) _ _ [2, 1, -100, -100, -100] aud_rowprop
+example := C03_row_any_order_width (-100) _ [1, 2] [2, 1] 1 3 (by decide) aud_rowprop (by decide)
+example := C03_rowagree (-100) _ _ [2, 1] aud_rowprop
+-- C03_oracle: the candidate list holds the reference tokens
+example := C03_oracle ⟨1/4, 4, 3/2⟩ (by norm_num) (by norm_num) (by norm_num) [1, 2, 2, 3, 7] [1, 2, 2, 3] [2] (by decide)
+
+/-- The batch instance of the `C03_layout` / `C03_output_rows` / `C03_check_sound_complete` hypotheses:
+two sequences handed over batch-first, second reference `3 eos 1` (garbage after the eos), eos counted. -/
+def audRef : Tens2 Int := ⟨2, 3, [1, 2, 2, 3, 0, 1]⟩
+def audHyp : Tens2 Int := ⟨2, 2, [2, 1, 3, 0]⟩
+def audCfgB : Cfg := ⟨some 0, true, false, ⟨1, 1, 1⟩, -100⟩
+
+example := C03_layout audCfgB true audRef audHyp rfl (by decide)
+example := C03_layout_rejects audCfgB true audRef ⟨3, 2, [2, 1, 3, 0, 1, 1]⟩ (Or.inl (by decide))
+example := C03_output_rows audCfgB (by norm_num [audCfgB]) (by norm_num [audCfgB]) (by norm_num [audCfgB]) true audRef audHyp
+  rfl (by decide) (by decide) (by decide)
+example (r : List Int) : True := by
+  obtain ⟨out, hout, _⟩ := C03_output_rows audCfgB (by norm_num [audCfgB]) (by norm_num [audCfgB])
+    (by norm_num [audCfgB]) true audRef audHyp rfl (by decide) (by decide) (by decide)
+  have := C03_check_sound_complete audCfgB (by norm_num [audCfgB]) (by norm_num [audCfgB]) (by norm_num [audCfgB])
+    true audRef audHyp rfl (by decide) (by decide) (by decide) out hout 1 0 (by decide) (by decide) r
+  trivial
+
+/-- The loss instance: eos `0` not counted, `ignore_index = -2`, `V = 3` classes, batch-first. -/
+def audCfgL : Cfg := ⟨some 0, false, true, ⟨1, 1, 1⟩, -2⟩
+def audLsm : Tens3 Rat := ⟨2, 2, 3, [-1, -2, -3, -1, -1, -4, -2, -2, -2, -5, -1, -1]⟩
+
+example := C03_loss_reduce audCfgL rfl (by norm_num [audCfgL]) (by norm_num [audCfgL]) (by norm_num [audCfgL]) true
+  (fun _ => 1) audLsm ⟨2, 2, [1, 2, 2, 0]⟩ ⟨2, 2, [2, 1, 1, 0]⟩ rfl (by decide) (by decide) rfl rfl (by decide)
+  (by decide) (by decide)
+-- C03_loss_rejects_class: the first reference starts with the token 7 (no class: V = 3); it is a target of
+-- the empty prefix, and the model raises IndexError like cross_entropy
+example : hardOCDLossT audCfgL true .mean (fun _ => 1) audLsm ⟨2, 2, [7, 2, 2, 0]⟩ ⟨2, 2, [2, 1, 1, 0]⟩
+    = .error "IndexError" :=
+  C03_loss_rejects_class audCfgL rfl (by norm_num [audCfgL]) (by norm_num [audCfgL]) (by norm_num [audCfgL]) true
+    .mean (fun _ => 1) audLsm ⟨2, 2, [7, 2, 2, 0]⟩ ⟨2, 2, [2, 1, 1, 0]⟩ rfl (by decide) (by decide) rfl rfl (by decide)
+    0 0 (by decide) (by decide) 7
+    ((C03_oracle_at audCfgL (by norm_num [audCfgL]) (by norm_num [audCfgL]) (by norm_num [audCfgL]) true _ _ 0 0 7).mp
+      (by decide +kernel))
+    (by decide) (Or.inr (by decide))
+-- a negative token is rejected too (it used to be read as class 0)
+example : (match hardOCDLossT audCfgL true .none (fun _ => 1) audLsm ⟨2, 2, [-1, 2, 2, 0]⟩ ⟨2, 2, [2, 1, 1, 0]⟩ with
+    | .error e => e | _ => "ok") = "IndexError" := by decide +kernel
 
 end PdtVerif.OptCompletion
